@@ -553,6 +553,23 @@ class CompleteStageHandler(
                     e,
                     exc_info=True,
                 )
+                # The failure may have struck after the computed status was
+                # applied to the in-memory stage but before the commit (which
+                # then rolled back). Marking that abandoned object TERMINAL
+                # would be rejected (e.g. SUCCEEDED -> TERMINAL), the error
+                # would escape, and the message would be retried into the DLQ
+                # while the stored stage stays RUNNING forever. Work from the
+                # persisted state instead.
+                stage = self.repository.retrieve_stage(message.stage_id)
+                if stage.status != WorkflowStatus.RUNNING:
+                    # The completion was committed (or another handler already
+                    # finalized the stage): nothing left to fail.
+                    logger.warning(
+                        "Stage %s is already %s after completion error; leaving it as is",
+                        stage.name,
+                        stage.status,
+                    )
+                    return
                 stage.context["exception"] = {
                     "details": {"error": str(e)},
                 }
